@@ -123,7 +123,8 @@ def gen(seed, run, tier='quick'):
                       'kind': rng.choice(['none', 'year', 'month', 'month',
                                           'day', 'day'])})
     w = {'update': rng.choice([3, 5, 8]), 'get': rng.choice([2, 4]),
-         'call': rng.choice([1, 2]), 'clock': rng.choice([0, 1, 3]),
+         'call': rng.choice([1, 2]), 'implicit': rng.choice([0, 1, 2]),
+         'clock': rng.choice([0, 1, 3]),
          'tick': rng.choice([0, 0, 1, 2]),
          'bad_validity': rng.choice([0, 1, 2]),
          'datetime_validity': rng.choice([0, 0, 1]),
@@ -232,6 +233,13 @@ def gen(seed, run, tier='quick'):
             ops.append(['update', ci,
                         _spell_validity(rng, other, some_date()),
                         rate_specs(ci)])
+        elif k == 'implicit':
+            # the converter used implicitly: registered with Money and
+            # called by money.convert / money + money without a date
+            a, b = rng.sample(range(n_cur), 2)
+            ops.append(['implicit', ci, a, b,
+                        f"{rng.randrange(1, 10 ** 7)}/100",
+                        rng.choice(['convert', 'add', 'lt'])])
         elif k in ('get', 'call'):
             a = rng.randrange(n_cur)
             b = rng.randrange(n_cur) if rng.random() < 0.08 else \
@@ -629,6 +637,59 @@ def execute(h):
                         kind=models[ci].kind)
         return o
 
+    def do_implicit(i, op):
+        """money.convert(cur), money + money, money < money with the
+        converter registered: the converter is called without a date, so
+        its own default effective date decides."""
+        ci = op[1] % len(convs)
+        a, b = op[2] % n_cur, op[3] % n_cur
+        if a == b:
+            return 'skipped'
+        conv, clock = convs[ci], cclk[ci]
+        ma = Money(Fraction(op[4]), curs[a])
+        mb = Money(Fraction(op[4]) / 3, curs[b])
+        how = op[5]
+        clock.reset_trace()
+        today0 = clock.today
+        with conv:
+            if how == 'convert':
+                o = observe(lambda: ('amount', _num(
+                    ma.convert(curs[b]).amount)), any_exc=True)
+            elif how == 'add':
+                o = observe(lambda: ('amount', _num((mb + ma).amount)),
+                            any_exc=True)
+            else:
+                o = observe(lambda: ('bool', mb < ma), any_exc=True)
+        if clock.armed:
+            bump(faults, 'clock_tick_during_lookup' if not clock.script
+                 else 'clock_tick_armed_but_not_reached')
+        clock.disarm()
+        bump(probes, 'implicit_conversion_through_registered_converter')
+        dates = list(dict.fromkeys(clock.trace)) or [today0]
+        exps = []
+        for dd in dates:
+            e = expected_rate(ci, a, b, dd)
+            if e[0] == 'unjudged':
+                return o
+            if e[0] == 'none':
+                exps.append(('exc', 'UnitConversionError'))
+                continue
+            raw = Fraction(e[3]) * ma.amount      # a -> b, not rounded
+            if how == 'convert':
+                exps.append(('amount', _num(Money(raw, curs[b]).amount)))
+            elif how == 'add':
+                exps.append(('amount', _num(Money(mb.amount + raw,
+                                                  curs[b]).amount)))
+            else:
+                exps.append(('bool', mb.amount < raw))
+        if o not in exps:
+            violate('implicit', 'torn_default_date' if len(dates) > 1
+                    else 'value', i, how=how, conv=ci, pair=[a, b],
+                    dates=[x.isoformat() for x in dates],
+                    expected=[list(e) for e in exps], observed=list(o),
+                    kind=models[ci].kind)
+        return o
+
     try:
         log.append([-1, sweep(-1)])
         for i, op in enumerate(ops):
@@ -705,6 +766,8 @@ def execute(h):
                             (list(k[0]), k[1], v[0]['v'])
                             for k, v in model.table.items())]))
                 out = o[0] if accepted else o[1]
+            elif kind == 'implicit':
+                out = do_implicit(i, op)
             elif kind in ('get', 'call'):
                 out = do_lookup(i, op)
             elif kind == 'clock':
